@@ -171,6 +171,7 @@ theorem step_config_other (w : World) (e : Event) (he : ∀ s fu m f t, e ≠ .e
     simp only [step]
     split <;> rfl
   | faucet to coin => rfl
+  | reseq n => rfl
 
 /-- **every event**: transactions by anybody with any message, ibc-hooks deliveries, acknowledgements, timeouts,
 stray callbacks, donations, clock advances -/
